@@ -19,8 +19,9 @@ gaussian_envelope(t, center, sigma != 0)   ensures 0 < value <= 1
 GaussianPulseProfile(spectral_width, center_wave).get_amplitude(t, ., phase_shift)   ensures |amplitude| <= 1
     (all 3x3 ways of giving the two wave descriptions).
 
-cos / exp are uninterpreted functions constrained by the axioms -1 <= cos <= 1, cos(-x) == cos(x) is NOT needed,
-exp(x) > 0, x <= 0 ==> exp(x) <= 1.
+cos / exp are uninterpreted functions constrained by the axioms -1 <= cos <= 1, exp(x) > 0, x <= 0 ==> exp(x) <= 1,
+x >= 0 ==> exp(x) >= 1.  The code computes the carrier as Re exp(-i*theta); the shim turns this into cos(-theta), and
+the carrier obligation is stated for exactly that term (cos is even, so this is cos(theta)).
 """
 
 from __future__ import annotations
